@@ -207,7 +207,7 @@ theorem invClose_step {cfg : PipeCfg} (hreg : cfg.registerBeforeHandoff = true)
   | ctlFini =>
     simp only [ctlFiniStep] at hs
     split at hs
-    · simp only [Option.some.injEq] at hs; subst hs; exact h.frame rfl rfl
+    · split at hs <;> (simp only [Option.some.injEq] at hs; subst hs; exact h.frame rfl rfl)
     · simp at hs
 
 theorem invClose_run {cfg : PipeCfg} (hreg : cfg.registerBeforeHandoff = true)
